@@ -363,7 +363,7 @@ Inductive mop :=
 | MDistAdd (nb : nat)          (* hwloc_distances_add_create/values/commit with nb >= 2 objects, no grouping *)
 | MDistRemoveAll               (* hwloc_distances_remove *)
 | MMaRegister                  (* hwloc_memattr_register *)
-| MMaSet (a : nat) (newtarget : bool)   (* hwloc_memattr_set_value; newtarget: the target had no value yet *)
+| MMaSet (a : nat) (newtarget : bool)   (* hwloc_memattr_set_value; newtarget: the call adds a target - or, since /repo c3717fc, an initiator to an existing target: both clear CACHE_VALID *)
 | MRefresh.                    (* hwloc_topology_refresh *)
 
 Fixpoint set_lives (ds : list dist) (lives : list nat) : list dist :=
